@@ -11,12 +11,17 @@ COQC = ["coqc", "-R", COQ_DIR, "Verif"]
 
 def ensure_build(log):
     """Full .vo build of the static development (no-op when up to date)."""
+    import fcntl
     t0 = time.time()
+    lock = open(os.path.join(COQ_DIR, ".build.lock"), "w")
+    fcntl.flock(lock, fcntl.LOCK_EX)   # concurrent checks must not run two makes at once
     if not os.path.exists(os.path.join(COQ_DIR, "Makefile")):
         subprocess.run(["coq_makefile", "-f", "_CoqProject", "-o", "Makefile"],
                        cwd=COQ_DIR, check=True, stdout=subprocess.DEVNULL)
     p = subprocess.run(["timeout", "1800", "make", "-j16"], cwd=COQ_DIR,
                        stdout=subprocess.PIPE, stderr=subprocess.STDOUT, text=True)
+    fcntl.flock(lock, fcntl.LOCK_UN)
+    lock.close()
     log("make: rc=%d (%.1fs)" % (p.returncode, time.time() - t0))
     return p.returncode == 0, p.stdout[-4000:]
 
